@@ -63,6 +63,33 @@ class Acc:
                 "samples": self.samples, "notes": self.notes[:20]}
 
 
+def generic_loop(mod, job, acc, t0=None):
+    t0 = t0 or time.time()
+    budget = job.get("budget_s", 1e9)
+    ctimeout = job.get("case_timeout", 30)
+    n = job["ncases"]
+    for ci in range(n):
+        if time.time() - t0 > budget:
+            acc.count("truncated-by-budget", n - ci)
+            break
+        cs = case_seed(job["seed"], job["widx"], ci)
+        rnd = random.Random(cs)
+        signal.alarm(ctimeout)
+        try:
+            mod.run_case(rnd, cs, job, acc)
+            acc.count("cases")
+        except CaseTimeout:
+            acc.count("case-timeout")
+            acc.notes.append("case-timeout seed=%d" % cs)
+            if hasattr(mod, "on_timeout"):
+                mod.on_timeout(cs, job, acc)
+        except Exception:
+            acc.count("harness-exception")
+            acc.notes.append("harness-exception seed=%d: %s" % (cs, traceback.format_exc()[-1200:]))
+        finally:
+            signal.alarm(0)
+
+
 def main():
     # this file runs as __main__; property modules import it as vlib.worker. Make both names ONE module object,
     # otherwise `except CaseTimeout` in a property module would never match the exception raised by the alarm handler.
@@ -83,27 +110,7 @@ def main():
     if hasattr(mod, "worker"):
         mod.worker(job, acc)  # module drives itself
     else:
-        n = job["ncases"]
-        for ci in range(n):
-            if time.time() - t0 > budget:
-                acc.count("truncated-by-budget", n - ci)
-                break
-            cs = case_seed(job["seed"], job["widx"], ci)
-            rnd = random.Random(cs)
-            signal.alarm(ctimeout)
-            try:
-                mod.run_case(rnd, cs, job, acc)
-                acc.count("cases")
-            except CaseTimeout:
-                acc.count("case-timeout")
-                acc.notes.append("case-timeout seed=%d" % cs)
-                if hasattr(mod, "on_timeout"):
-                    mod.on_timeout(cs, job, acc)
-            except Exception:
-                acc.count("harness-exception")
-                acc.notes.append("harness-exception seed=%d: %s" % (cs, traceback.format_exc()[-1200:]))
-            finally:
-                signal.alarm(0)
+        generic_loop(mod, job, acc, t0)
     if hasattr(mod, "teardown"):
         mod.teardown(job, acc)
     acc.counters["wall_s"] = round(time.time() - t0, 2)
